@@ -130,6 +130,8 @@ theorem litValue_natChars (n : Nat) : litValue (natChars n) = some n := by
   simp only
   split
   · exact litValue_hex n
-  · exact litValue_dec n
+  · split
+    · exact litValue_hex n
+    · exact litValue_dec n
 
 end PMV.Token
